@@ -276,7 +276,9 @@ Definition cap_dur (max_len : option Q) (d : Q) : Q :=
 Lemma Stoch_row_spec a d e pph maxP max_len ff :
   Stoch_row a d e pph maxP max_len ff =
   let d' := cap_dur max_len d in
-  (Qtrunc (a * pph), Qtrunc ((a + d') * pph), (if ff then Qmin (maxP * d') e else e), d').
+  let arr := Qtrunc (a * pph) in
+  let dep := Qtrunc ((a + d') * pph) in
+  (arr, dep, (if ff then Qmin (maxP * inject_Z (dep - arr) / pph) e else e), d').
 Proof.
   unfold Stoch_row, cap_dur. destruct max_len as [L|]; cbn.
   - destruct (Qltb L d); destruct ff; reflexivity.
@@ -321,17 +323,19 @@ Proof. intros Hd HL. unfold cap_dur. destruct max_len as [L|]; auto. destruct (Q
 Lemma stoch_row_ok T V maxP max_len bp ff a d e o :
   stoch_convert_row T V maxP max_len bp ff (a, d, e) = Ok o ->
   let d' := cap_dur max_len d in
-  let en := if ff then Qmin (maxP * d') e else e in
-  ev_arrival o = Qtrunc (a * Stoch_pph T) /\
-  ev_departure o = Qtrunc ((a + d') * Stoch_pph T) /\
+  let arr := Qtrunc (a * Stoch_pph T) in
+  let dep := Qtrunc ((a + d') * Stoch_pph T) in
+  let en := if ff then Qmin (maxP * inject_Z (dep - arr) / Stoch_pph T) e else e in
+  ev_arrival o = arr /\
+  ev_departure o = dep /\
   ev_requested o = en /\
-  size_battery bp (en, 0) en (ev_departure o - ev_arrival o)%Z V T = Ok (ev_cap o, ev_init o).
+  size_battery bp (en, 0) en (dep - arr)%Z V T = Ok (ev_cap o, ev_init o).
 Proof.
   unfold stoch_convert_row. rewrite Stoch_row_spec. cbv zeta.
-  set (d' := cap_dur max_len d). set (en := if ff then _ else _).
+  set (d' := cap_dur max_len d). set (arr := Qtrunc (a * Stoch_pph T)).
+  set (dep := Qtrunc ((a + d') * Stoch_pph T)). set (en := if ff then _ else _).
   unfold Stoch_default_cap, Stoch_default_init. change (0 # 1) with 0.
-  match goal with |- context [size_battery bp (en, 0) en ?st V T] =>
-    destruct (size_battery bp (en, 0) en st V T) as [[cap init]|s] eqn:Es end; [|discriminate].
+  destruct (size_battery bp (en, 0) en (dep - arr)%Z V T) as [[cap init]|s] eqn:Es; [|discriminate].
   intro H. inversion H; subst; cbn. auto.
 Qed.
 
@@ -371,59 +375,30 @@ Qed.
 
 Lemma stoch_row_energy T V maxP max_len bp ff a d e o :
   stoch_convert_row T V maxP max_len bp ff (a, d, e) = Ok o ->
-  ev_requested o = if ff then Qmin (maxP * cap_dur max_len d) e else e.
-Proof. intro H. apply stoch_row_ok in H. cbv zeta in H. tauto. Qed.
-
-(* force_feasible on this path caps by the (capped) sampled duration in hours ... *)
-Lemma stoch_row_energy_hours T V maxP max_len bp a d e o :
-  stoch_convert_row T V maxP max_len bp true (a, d, e) = Ok o ->
-  ev_requested o <= e /\ ev_requested o <= maxP * cap_dur max_len d.
+  ev_requested o =
+  if ff then Qmin (maxP * inject_Z (ev_departure o - ev_arrival o) / Stoch_pph T) e else e.
 Proof.
-  intro H. rewrite (stoch_row_energy _ _ _ _ _ _ _ _ _ _ H). split; [apply Q.le_min_r|apply Q.le_min_l].
+  intro H. apply stoch_row_ok in H. cbv zeta in H. destruct H as (Ha & Hd & He & _).
+  now rewrite Ha, Hd, He.
 Qed.
 
-(* ... which the discretised stay can undercut: a row whose capped request exceeds what
-   max_battery_power delivers in [arrival, departure) *)
-Lemma stoch_force_feasible_refuted :
-  exists T V maxP max_len bp a d e o,
-    0 < T /\ 0 < maxP /\ Stoch_invalid a d e = false /\
-    stoch_convert_row T V maxP max_len bp true (a, d, e) = Ok o /\
-    maxP * inject_Z (ev_departure o - ev_arrival o) * (T / 60) < ev_requested o.
-Proof.
-  exists 60, 208, 7, None, BP_default, 0, (9 # 10), 10.
-  eexists. repeat split; try reflexivity.
-Qed.
-
-(* what does hold for the discretised stay: at most one period more than max power allows *)
-Lemma stoch_row_energy_periods T V maxP max_len bp a d e o :
-  0 < T -> 0 <= maxP -> 0 <= a -> 0 < d -> match max_len with Some L => 0 <= L | None => True end ->
+(* force_feasible on this path: capped by what max_battery_power delivers during the discretised
+   stay [arrival, departure) of the EV that is returned (code as of the fix ebdc3a4) *)
+Lemma stoch_row_energy_feasible T V maxP max_len bp a d e o :
+  0 < T ->
   stoch_convert_row T V maxP max_len bp true (a, d, e) = Ok o ->
-  ev_requested o <= maxP * (inject_Z (ev_departure o - ev_arrival o) + 1) * (T / 60).
+  ev_requested o <= e /\
+  ev_requested o <= maxP * inject_Z (ev_departure o - ev_arrival o) * (T / 60) /\
+  (e <= maxP * inject_Z (ev_departure o - ev_arrival o) * (T / 60) -> ev_requested o == e).
 Proof.
-  intros HT HP Ha Hd HL H.
-  destruct (stoch_row_energy_hours _ _ _ _ _ _ _ _ _ H) as [_ Hh].
-  apply stoch_row_ok in H. cbv zeta in H. destruct H as (Har & Hdep & _ & _).
-  pose proof (pph_pos T HT) as Hp. unfold Stoch_pph in *. change (60 # 1) with 60 in *.
-  set (d' := cap_dur max_len d) in *.
-  assert (Hd' : 0 <= d') by (apply cap_dur_nonneg; auto; now apply Qlt_le_weak).
-  assert (H1 : 0 <= a * (60 / T)) by (apply Qmult_le_0_compat; auto; now apply Qlt_le_weak).
-  assert (H2 : 0 <= (a + d') * (60 / T)).
-  { apply Qmult_le_0_compat; [|now apply Qlt_le_weak]. lra. }
-  rewrite Qtrunc_nonneg in Har, Hdep by assumption.
-  (* d' * 60/T < stay + 1 *)
-  pose proof (Qlt_floor ((a + d') * (60 / T))) as Hf1. pose proof (Qfloor_le (a * (60 / T))) as Hf2.
-  rewrite <- Hdep in Hf1. rewrite <- Har in Hf2.
-  assert (Hst : d' * (60 / T) <= inject_Z (ev_departure o - ev_arrival o) + 1).
-  { unfold Zminus. rewrite inject_Z_plus, inject_Z_opp. rewrite inject_Z_plus in Hf1.
-    change (inject_Z 1) with 1 in Hf1.
-    setoid_replace ((a + d') * (60 / T)) with (a * (60 / T) + d' * (60 / T)) in Hf1 by ring. lra. }
-  eapply Qle_trans; [exact Hh|].
+  intros HT H. rewrite (stoch_row_energy _ _ _ _ _ _ _ _ _ _ H).
   assert (HTne : ~ T == 0) by (intro E; rewrite E in HT; discriminate).
-  setoid_replace (maxP * d') with (maxP * (d' * (60 / T)) * (T / 60)) by (field; auto).
-  apply Qmult_le_compat_r.
-  - rewrite (Qmult_comm maxP (d' * (60 / T))), (Qmult_comm maxP (inject_Z (ev_departure o - ev_arrival o) + 1)).
-    apply Qmult_le_compat_r; assumption.
-  - unfold Qdiv. apply Qmult_le_0_compat; [now apply Qlt_le_weak|discriminate].
+  assert (Heq : maxP * inject_Z (ev_departure o - ev_arrival o) / Stoch_pph T
+                == maxP * inject_Z (ev_departure o - ev_arrival o) * (T / 60)).
+  { unfold Stoch_pph. change (60 # 1) with 60. field. exact HTne. }
+  split; [apply Q.le_min_r|]. split.
+  - rewrite <- Heq. apply Q.le_min_l.
+  - intro Hle. apply Q.min_r. now rewrite Heq.
 Qed.
 
 (* clip_samples *)
